@@ -38,9 +38,9 @@ def asksCall (cache : Bool) (cc : Conn) (re : Retry) : Call :=
 def sentBy (cache : Bool) (cc : Conn) (re : Retry) : List Call :=
   (if re.cmds ≠ [] then [cmdsCall cache cc re] else []) ++ (if re.asks ≠ [] then [asksCall cache cc re] else [])
 
-theorem doRetry_log (o : Opt) (cache hasInit : Bool) (attempts : Nat) (cc : Conn) (re : Retry) (a : Acc) (w : World) :
-    (doRetry o cache hasInit attempts cc re a w).2.log = w.log ++ sentBy cache cc re := by
-  unfold doRetry sentBy cmdsCall asksCall
+theorem doRetryCore_log (o : Opt) (cache hasInit : Bool) (attempts : Nat) (cc : Conn) (re : Retry) (a : Acc) (w : World) :
+    (doRetryCore o cache hasInit attempts cc re a w).2.log = w.log ++ sentBy cache cc re := by
+  unfold doRetryCore sentBy cmdsCall asksCall
   simp only
   by_cases hc : re.cmds ≠ []
   · by_cases ha : re.asks ≠ []
@@ -53,6 +53,14 @@ theorem doRetry_log (o : Opt) (cache hasInit : Bool) (attempts : Nat) (cc : Conn
       simp
     · rw [if_neg hc, if_neg ha, if_neg hc, if_neg ha]
       simp
+
+theorem doRetry_log (o : Opt) (cache hasInit : Bool) (attempts : Nat) (cc : Conn) (re : Retry) (a : Acc) (w : World) :
+    (doRetry o cache hasInit attempts cc re a w).2.log = w.log ++ sentBy cache cc re := by
+  unfold doRetry
+  simp only
+  split
+  · exact doRetryCore_log o cache hasInit attempts cc re a w
+  · exact doRetryCore_log o cache hasInit attempts cc re a w
 
 theorem runRound_log (o : Opt) (cache hasInit : Bool) (attempts : Nat) : ∀ (p : Pending) (a : Acc) (w : World),
     (runRound o cache hasInit attempts p a w).2.log = w.log ++ p.flatMap fun x => sentBy cache x.1 x.2 := by
@@ -131,5 +139,41 @@ theorem rounds_log_prefix (o : Opt) (cache hasInit : Bool) : ∀ (fuel : Nat) (p
           exact ⟨_, by rw [ht, hl, List.append_assoc]⟩
         · exact ⟨_, hl⟩
     · exact ⟨_, hl⟩
+
+end Rv.ClusterMultiL
+
+namespace Rv.ClusterMultiL
+open Rv Rv.Topology Rv.ClusterRoute Rv.ClusterMulti
+
+theorem answer_recycled (w : World) (addr : Bytes) (c : Cmd) : (answer w addr c).2.recycled = w.recycled := by
+  unfold answer
+  split <;> rfl
+
+theorem answerAll_recycled (addr : Bytes) : ∀ (cs : List Cmd) (w : World), (answerAll w addr cs).2.recycled = w.recycled := by
+  intro cs
+  induction cs with
+  | nil => intro w; rfl
+  | cons c rest ih => intro w; simp only [answerAll]; rw [ih, answer_recycled]
+
+theorem phase_recycled (o : Opt) (cache hasInit : Bool) (attempts : Nat) (cc : Conn) (kind : CallKind) (items : List Item)
+    (es : List Entry) (a : Acc) (w : World) :
+    (phase o cache hasInit attempts cc kind items es a w).2.recycled = w.recycled := by
+  unfold phase
+  simp only
+  rw [answerAll_recycled]
+  rfl
+
+/-- sending never touches the pool -/
+theorem doRetryCore_recycled (o : Opt) (cache hasInit : Bool) (attempts : Nat) (cc : Conn) (re : Retry) (a : Acc) (w : World) :
+    (doRetryCore o cache hasInit attempts cc re a w).2.recycled = w.recycled := by
+  unfold doRetryCore
+  simp only
+  by_cases hc : re.cmds ≠ []
+  · by_cases ha : re.asks ≠ []
+    · rw [if_pos hc, if_pos ha, phase_recycled, phase_recycled]
+    · rw [if_pos hc, if_neg ha, phase_recycled]
+  · by_cases ha : re.asks ≠ []
+    · rw [if_neg hc, if_pos ha, phase_recycled]
+    · rw [if_neg hc, if_neg ha]
 
 end Rv.ClusterMultiL
